@@ -130,6 +130,8 @@ def mul(a: HV, b: HV, sign: int = 1) -> HV:
 
 def power(a: HV, n) -> HV:
     if a.mixed:
+        if isinstance(n, (int, float, Fraction)) and not isinstance(n, bool) and n != 0 and not (a.parts or a.cols):
+            return a  # a power of an inhomogeneous scalar is still inhomogeneous
         return TOP("derived from an inhomogeneous array")
     if a.top:
         return a
@@ -207,6 +209,15 @@ def add(a: HV, b: HV, sign: int = 1, tolerance: bool = False) -> HV:
                 return replace(a, aff=None, zero=False, const=None,
                                mixed=(f"the two summands have the same degree but pick up different signs when {', '.join(diff)} is replaced by a "
                                       f"negative multiple: {a.describe()[:150]} +/- {b.describe()[:150]}")[:480])
+    if not (a.parts or a.cols or b.parts or b.cols) and not has_generic(a) and not has_generic(b):
+        da, db = a.dmap(), b.dmap()
+        keys = set(da) | set(db)
+        if any(da.get(k, (0, EVEN))[0] != db.get(k, (0, EVEN))[0] for k in keys):
+            # two summands of DEFINITE, different degree: the sum is not homogeneous at all. Kept as a definite fact only while the value
+            # is merely scaled by representative-free factors or raised to a power (sqrt); every other operation forgets it (TOP), because
+            # determinants and quotients can re-homogenise such sums (crossratio's plane branch does)
+            return replace(a if a.tainted else b, aff=None, zero=False, const=None,
+                           mixed=f"sum of terms of different degree: {a.describe()[:120]} +/- {b.describe()[:120]}"[:400])
     return TOP(f"inhomogeneous sum: {a.describe()} +/- {b.describe()}")
 
 
